@@ -124,6 +124,8 @@ const (
 )
 
 type meth struct {
+	inherit bool // no own property: found along the prototype chain at each conversion
+	quiet   bool // a built-in method: not logged
 	present bool
 	setv    int // variable assigned by the method, -1 none
 	setp    prim
@@ -132,6 +134,9 @@ type meth struct {
 }
 
 func (m meth) coq() string {
+	if m.inherit {
+		return "MInherit"
+	}
 	if !m.present {
 		return "MNone"
 	}
@@ -145,6 +150,9 @@ func (m meth) coq() string {
 		r = "(MPrim " + m.p.coq() + ")"
 	case retThrow:
 		r = "MThrow"
+	}
+	if m.quiet {
+		return "(MQuiet " + r + ")"
 	}
 	return "(mdo " + sv + " " + r + ")"
 }
@@ -173,12 +181,13 @@ func (m meth) js(tag int) string {
 
 type obj struct {
 	id     int
-	cls    int // 0 plain, 1 Date, 2 function
+	cls    int // 0 plain, 1 Date, 2 function, 4 bound function
 	vo, ts meth
 	keys   [][]uint16
-	chain  []int64
-	fproto int64
+	chain  []int64 // ids on the prototype chain, nearest first (90 Object.prototype, 89 Function.prototype, ...)
+	fproto int64   // functions: id of .prototype (bound: of the target's), 0 = not an object
 	base   string
+	jsname string // built-in object referred to by name, never defined or converted
 }
 
 type value struct {
@@ -212,24 +221,54 @@ func (v value) js() string {
 	if v.o == nil {
 		return v.p.js()
 	}
-	return fmt.Sprintf("o%d", v.o.id)
+	return v.o.name()
+}
+
+func (o *obj) name() string {
+	if o.jsname != "" {
+		return o.jsname
+	}
+	return fmt.Sprintf("o%d", o.id)
+}
+
+func protoName(id int64) string {
+	switch id {
+	case 0:
+		return "7"
+	case 90:
+		return "Object.prototype"
+	case 96:
+		return "Number.prototype"
+	case 97:
+		return "String.prototype"
+	case 98:
+		return "Boolean.prototype"
+	}
+	return fmt.Sprintf("o%d", id)
 }
 
 // JS statements that build the object
 func (o *obj) define() string {
-	var b strings.Builder
-	fmt.Fprintf(&b, "var o%d = %s; o%d.__id = %d; ", o.id, o.base, o.id, o.id)
-	if o.cls == 2 {
-		switch {
-		case o.fproto == 91:
-			fmt.Fprintf(&b, "o%d.prototype = P1; ", o.id)
-		case o.fproto == 92:
-			fmt.Fprintf(&b, "o%d.prototype = P2; ", o.id)
-		case o.fproto == 0:
-			fmt.Fprintf(&b, "o%d.prototype = 7; ", o.id)
-		}
+	if o.jsname != "" {
+		return ""
 	}
-	fmt.Fprintf(&b, "o%d.valueOf = %s; o%d.toString = %s; ", o.id, o.vo.js(o.id*2), o.id, o.ts.js(o.id*2+1))
+	var b strings.Builder
+	switch o.cls {
+	case 4: // bound function: the target carries the prototype
+		fmt.Fprintf(&b, "var t%d = function(){}; t%d.prototype = %s; var o%d = t%d.bind(null); ", o.id, o.id, protoName(o.fproto), o.id, o.id)
+	default:
+		fmt.Fprintf(&b, "var o%d = %s; ", o.id, o.base)
+	}
+	fmt.Fprintf(&b, "o%d.__id = %d; ", o.id, o.id)
+	if o.cls == 2 && o.fproto < 1000 {
+		fmt.Fprintf(&b, "o%d.prototype = %s; ", o.id, protoName(o.fproto))
+	}
+	if !o.vo.inherit {
+		fmt.Fprintf(&b, "o%d.valueOf = %s; ", o.id, o.vo.js(o.id*2))
+	}
+	if !o.ts.inherit {
+		fmt.Fprintf(&b, "o%d.toString = %s; ", o.id, o.ts.js(o.id*2+1))
+	}
 	for _, k := range o.keys {
 		fmt.Fprintf(&b, "o%d[%s] = 1; ", o.id, jsStr(k))
 	}
@@ -248,9 +287,11 @@ const (
 	eCmp
 	eInc
 	eLog
+	eSetM
 )
 
 type expr struct {
+	m        meth
 	kind     int
 	op       int
 	n        int
@@ -306,6 +347,13 @@ func (e *expr) js() string {
 		}
 		return "(" + varNames[e.n] + op + ")"
 	}
+	if e.kind == eSetM {
+		prop := []string{"valueOf", "toString"}[e.op]
+		if e.m.inherit {
+			return "(void (delete " + protoName(int64(e.n)) + "." + prop + "))"
+		}
+		return "(void (" + protoName(int64(e.n)) + "." + prop + " = " + e.m.js(e.n*2+e.op) + "))"
+	}
 	return "(log.push(" + strconv.Itoa(e.op) + "), (" + e.sub[0].js() + "))"
 }
 
@@ -328,6 +376,9 @@ func (e *expr) coq() string {
 	case eInc:
 		return fmt.Sprintf("(Inc %s %s %d)", Cbool(e.pre), Cbool(e.dec), e.n)
 	}
+	if e.kind == eSetM {
+		return fmt.Sprintf("(SetM %d %d %s)", e.n, e.op, e.m.coq())
+	}
 	return fmt.Sprintf("(Lg %d %s)", e.op, e.sub[0].coq())
 }
 
@@ -341,6 +392,7 @@ func cmpd(op, n int, x *expr) *expr     { return &expr{kind: eCmp, op: op, n: n,
 func inc(pre, dec bool, n int) *expr    { return &expr{kind: eInc, pre: pre, dec: dec, n: n} }
 func logx(k int, x *expr) *expr         { return &expr{kind: eLog, op: k, sub: []*expr{x}} }
 func pv(p prim) value                   { return value{p: p} }
+func setm(id, which int, m meth) *expr  { return &expr{kind: eSetM, n: id, op: which, m: m} }
 
 // ---------- generator ----------
 
@@ -350,6 +402,30 @@ type gen struct {
 	nextID int
 	objs   []*obj
 	force  map[string]interface{} // variables that must be injected through Otto.Set with this Go value
+	p91    *obj                   // the two user prototype objects of the current case: o91 = {}, o92 = Object.create(o91)
+	p92    *obj
+	wproto *obj // Number/String/Boolean.prototype as seen by the single wrapper object of the current case
+}
+
+// fresh prototype objects for the next case
+func (g *gen) resetCase() {
+	g.wproto = nil
+	g.objs = g.objs[:0]
+	g.nextID = 0
+	pm := func() meth {
+		if g.r(5) < 2 {
+			return meth{inherit: true}
+		}
+		return g.meth(false)
+	}
+	g.p91 = &obj{id: 91, base: "{}", chain: []int64{90}, fproto: -1, vo: pm(), ts: pm()}
+	g.p92 = &obj{id: 92, base: "Object.create(o91)", chain: []int64{91, 90}, fproto: -1, vo: pm(), ts: pm()}
+	if g.r(2) == 0 {
+		g.p91.keys = append(g.p91.keys, g.keyName())
+	}
+	if g.r(3) == 0 {
+		g.p92.keys = append(g.p92.keys, g.keyName())
+	}
 }
 
 func (g *gen) r(n int) int { return g.env.Rng.Intn(n) }
@@ -625,13 +701,22 @@ func (g *gen) meth(sideEffects bool) meth {
 
 func (g *gen) object(sideEffects bool) value {
 	r := g.env.Rng
+	if r.Intn(12) == 0 { // the prototype objects themselves
+		if r.Intn(2) == 0 {
+			return value{o: g.p91}
+		}
+		return value{o: g.p92}
+	}
 	g.nextID++
 	o := &obj{id: g.nextID, fproto: -1}
-	switch r.Intn(8) {
+	switch r.Intn(9) {
 	case 0:
-		o.cls, o.base = 1, "new Date(0)"
-	case 1:
-		o.cls, o.base = 2, "function(){}"
+		o.cls, o.base, o.chain = 1, "new Date(0)", []int64{84, 90}
+	case 1, 8:
+		o.cls, o.base, o.chain = 2, "function(){}", []int64{89, 90}
+		if r.Intn(4) == 0 {
+			o.cls = 4
+		}
 		switch r.Intn(4) {
 		case 0:
 			o.fproto = 91
@@ -641,16 +726,27 @@ func (g *gen) object(sideEffects bool) value {
 			o.fproto = 0
 		default:
 			o.fproto = int64(1000 + o.id)
+			if o.cls == 4 {
+				o.fproto = 92
+			}
 		}
 	case 2:
-		o.base, o.chain = "Object.create(P1)", []int64{91}
+		o.base, o.chain = "Object.create(o91)", []int64{91, 90}
 	case 3:
-		o.base, o.chain = "Object.create(P2)", []int64{92, 91}
+		o.base, o.chain = "Object.create(o92)", []int64{92, 91, 90}
 	default:
-		o.base = "{}"
+		o.base, o.chain = "{}", []int64{90}
 	}
 	o.vo = g.meth(sideEffects)
 	o.ts = g.meth(sideEffects)
+	if o.cls == 0 { // plain objects may leave the conversion methods to their prototype chain
+		if r.Intn(4) == 0 {
+			o.vo = meth{inherit: true}
+		}
+		if r.Intn(4) == 0 {
+			o.ts = meth{inherit: true}
+		}
+	}
 	if r.Intn(3) == 0 {
 		for i := r.Intn(4); i >= 0; i-- {
 			o.keys = append(o.keys, g.keyName())
@@ -658,6 +754,24 @@ func (g *gen) object(sideEffects bool) value {
 	}
 	g.objs = append(g.objs, o)
 	return value{o: o}
+}
+
+// built-in objects and instances, for instanceof / typeof / strict equality only
+var builtins = []*obj{
+	{id: 90, jsname: "Object.prototype", chain: nil, fproto: -1},
+	{id: 89, cls: 2, jsname: "Function.prototype", chain: []int64{90}, fproto: 0},
+	{id: 88, jsname: "Array.prototype", chain: []int64{90}, fproto: -1},
+	{id: 87, cls: 2, jsname: "Object", chain: []int64{89, 90}, fproto: 90},
+	{id: 86, cls: 2, jsname: "Function", chain: []int64{89, 90}, fproto: 89},
+	{id: 85, cls: 2, jsname: "Array", chain: []int64{89, 90}, fproto: 88},
+	{id: 83, jsname: "Error.prototype", chain: []int64{90}, fproto: -1},
+	{id: 82, jsname: "TypeError.prototype", chain: []int64{83, 90}, fproto: -1},
+	{id: 81, cls: 2, jsname: "Error", chain: []int64{89, 90}, fproto: 83},
+	{id: 80, cls: 2, jsname: "TypeError", chain: []int64{89, 90}, fproto: 82},
+	{id: 79, jsname: "[1, 2]", chain: []int64{88, 90}, fproto: -1},
+	{id: 78, jsname: "(new TypeError(\"x\"))", chain: []int64{82, 83, 90}, fproto: -1},
+	{id: 77, jsname: "(new Object())", chain: []int64{90}, fproto: -1},
+	{id: 76, cls: 2, jsname: "(new Function(\"return 1\"))", chain: []int64{89, 90}, fproto: 1076},
 }
 
 var keyNames = []string{"0", "1", "-1", "NaN", "Infinity", "-Infinity", "undefined", "null", "true", "false", "1.5", "4294967296", "1e+21", "1e-7", "", "a", "12", "0.1", "9007199254740992", "-0"}
@@ -726,7 +840,7 @@ func (g *gen) tree(depth int, objects, sideEffects bool) *expr {
 
 // ---------- running a case ----------
 
-const prelude = `var log = [], r, st, a, b, c; var P1 = {}; P1.__id = 91; var P2 = Object.create(P1); P2.__id = 92;`
+const prelude = `var log = [], r, st, a, b, c; var OPV = Object.prototype.valueOf, OPT = Object.prototype.toString; var ORIG = {'Number.prototype.valueOf': Number.prototype.valueOf, 'Number.prototype.toString': Number.prototype.toString, 'String.prototype.valueOf': String.prototype.valueOf, 'String.prototype.toString': String.prototype.toString, 'Boolean.prototype.valueOf': Boolean.prototype.valueOf, 'Boolean.prototype.toString': Boolean.prototype.toString};`
 
 func (g *gen) readVal(v otto.Value) string {
 	switch {
@@ -859,6 +973,8 @@ func utf16Decode(u []uint16) []rune {
 func (g *gen) runCase(vars [3]value, e *expr, bucket string, nontrivial bool) {
 	var src strings.Builder
 	src.WriteString("log = []; r = undefined; ")
+	src.WriteString(g.p91.define())
+	src.WriteString(g.p92.define())
 	for _, o := range g.objs {
 		src.WriteString(o.define())
 	}
@@ -870,7 +986,11 @@ func (g *gen) runCase(vars [3]value, e *expr, bucket string, nontrivial bool) {
 			sets = append(sets, s)
 		}
 	}
-	fmt.Fprintf(&src, "st = 0; try { r = %s; } catch (e) { r = undefined; st = (typeof e === 'number') ? e : (e instanceof TypeError) ? 6 : (e instanceof ReferenceError) ? 4 : (e instanceof RangeError) ? 3 : (e instanceof SyntaxError) ? 5 : 1; }", e.js())
+	fmt.Fprintf(&src, "st = 0; try { r = %s; } catch (e) { r = undefined; st = (typeof e === 'number') ? e : (e instanceof TypeError) ? 6 : (e instanceof ReferenceError) ? 4 : (e instanceof RangeError) ? 3 : (e instanceof SyntaxError) ? 5 : 1; } Object.prototype.valueOf = OPV; Object.prototype.toString = OPT;", e.js())
+	if g.wproto != nil {
+		n := g.wproto.jsname
+		fmt.Fprintf(&src, " Object.defineProperty(%s, 'valueOf', {value: ORIG['%s.valueOf'], writable: true, enumerable: false, configurable: true}); Object.defineProperty(%s, 'toString', {value: ORIG['%s.toString'], writable: true, enumerable: false, configurable: true});", n, n, n, n)
+	}
 	o := RunJS(g.vm, src.String())
 	status := int64(0)
 	res := "(OP PUndef)"
@@ -907,14 +1027,17 @@ func (g *gen) runCase(vars [3]value, e *expr, bucket string, nontrivial bool) {
 	for i, v := range vars {
 		vs[i] = v.coq()
 	}
-	coq := fmt.Sprintf("CExpr %s %s %s %s %s %s", Clist(vs), e.coq(), Cz(status), res, Clist(fin), Czlist(lg))
+	pss := []string{value{o: g.p91}.coq(), value{o: g.p92}.coq()}
+	if g.wproto != nil {
+		pss = append(pss, value{o: g.wproto}.coq())
+	}
+	coq := fmt.Sprintf("CExpr %s %s %s %s %s %s %s", Clist(pss), Clist(vs), e.coq(), Cz(status), res, Clist(fin), Czlist(lg))
 	txt := src.String()
 	if len(sets) > 0 {
 		txt = "[" + strings.Join(sets, "; ") + "] " + txt
 	}
 	g.env.Add(coq, sanitize(txt+"  ==>  "+obsText), bucket, nontrivial)
-	g.objs = g.objs[:0]
-	g.nextID = 0
+	g.resetCase()
 }
 
 func (g *gen) vars(objects, sideEffects bool) [3]value {
@@ -1058,7 +1181,7 @@ func (g *gen) pinned() {
 	g.runCase(u, bin(15, lit(str("\uffff")), lit(str("\U00010000"))), "pinned", true)
 	// class 5: a + b with a.valueOf writing b
 	g.nextID = 1
-	o := &obj{id: 1, base: "{}", fproto: -1, vo: meth{present: true, setv: 1, setp: pNum(10), ret: retPrim, p: pNum(1)}, ts: meth{present: true, setv: -1, ret: retPrim, p: pStr("x")}}
+	o := &obj{id: 1, base: "{}", chain: []int64{90}, fproto: -1, vo: meth{present: true, setv: 1, setp: pNum(10), ret: retPrim, p: pNum(1)}, ts: meth{present: true, setv: -1, ret: retPrim, p: pStr("x")}}
 	g.objs = append(g.objs, o)
 	g.runCase([3]value{{o: o}, num(2), num(0)}, bin(0, evar(0), evar(1)), "pinned", true)
 	// regression witness of the repaired compound-assignment order (commit 3657e0a): x += (x = 5, 1)
@@ -1099,15 +1222,223 @@ func (g *gen) intRepr(n int64, how int) {
 	g.env.Add(fmt.Sprintf("CIntStr %s %s", Cz(n), obs), sanitize(txt+src+"  ==>  "+ot), "intrepr", true)
 }
 
+// one object used 2-5 times on the same runtime while the conversion methods it resolves to are
+// replaced, deleted and restored on the object itself, on its user prototypes and on Object.prototype
+func (g *gen) history() ([3]value, *expr) {
+	r := g.env.Rng
+	g.nextID++
+	o := &obj{id: g.nextID, fproto: -1}
+	switch r.Intn(4) {
+	case 0:
+		o.base, o.chain = "{}", []int64{90}
+	case 1:
+		o.base, o.chain = "Object.create(o91)", []int64{91, 90}
+	default:
+		o.base, o.chain = "Object.create(o92)", []int64{92, 91, 90}
+	}
+	pm := func() meth {
+		if r.Intn(4) > 0 {
+			return meth{inherit: true}
+		}
+		return g.meth(false)
+	}
+	o.vo, o.ts = pm(), pm()
+	wrapper := r.Intn(4) == 0
+	if wrapper { // new Number(5) / new String("12") / new Boolean(false): the built-in prototype's methods get replaced
+		q := func(p prim) meth { return meth{present: true, quiet: true, setv: -1, ret: retPrim, p: p} }
+		switch r.Intn(3) {
+		case 0:
+			o.cls, o.base, o.chain = 6, "new Number(5)", []int64{96, 90}
+			g.wproto = &obj{id: 96, jsname: "Number.prototype", chain: []int64{90}, fproto: -1, vo: q(pNum(5)), ts: q(pStr("5"))}
+		case 1:
+			o.cls, o.base, o.chain = 7, "new String(\"12\")", []int64{97, 90}
+			g.wproto = &obj{id: 97, jsname: "String.prototype", chain: []int64{90}, fproto: -1, vo: q(pStr("12")), ts: q(pStr("12"))}
+		default:
+			o.cls, o.base, o.chain = 8, "new Boolean(false)", []int64{98, 90}
+			g.wproto = &obj{id: 98, jsname: "Boolean.prototype", chain: []int64{90}, fproto: -1, vo: q(pBool(false)), ts: q(pStr("false"))}
+		}
+		o.vo, o.ts = meth{inherit: true}, meth{inherit: true}
+		if r.Intn(5) == 0 {
+			o.vo = g.meth(false)
+		}
+	}
+	g.objs = append(g.objs, o)
+	ov := value{o: o}
+	vs := g.vars(false, false)
+	use := func() *expr {
+		x := lit(ov)
+		if r.Intn(3) == 0 {
+			vs[2] = ov
+			x = evar(2)
+		}
+		p := lit(pv(Pick(r, []prim{pNum(1), pNum(2), pStr(""), pStr("x"), pNum(500), pBool(true), pNull(), pNum(6)})))
+		switch r.Intn(8) {
+		case 0:
+			return bin(0, x, p)
+		case 1:
+			return bin(0, p, x)
+		case 2:
+			return bin(Pick(r, []int{1, 2, 3, 4, 5, 6, 8}), x, p)
+		case 3:
+			return bin(Pick(r, cmpOps), x, p)
+		case 4:
+			if o.cls == 7 {
+				// String methods on a primitive receiver go through a replaced String.prototype.toString in otto
+				// (string built-ins: C09), so the ToUint16 / ToInteger probes stay away from patched String.prototype
+				return un(Pick(r, []int{0, 1, 2, 6, 7, 11}), x)
+			}
+			return un(Pick(r, []int{0, 1, 2, 6, 7, 9, 10, 11}), x)
+		case 5:
+			return bin(Pick(r, cmpOps), p, x)
+		case 6:
+			if wrapper {
+				return bin(0, x, x)
+			}
+			return bin(19, x, lit(ov))
+		default:
+			return un(7, x)
+		}
+	}
+	mutate := func() *expr {
+		target := Pick(r, []int{o.id, 91, 91, 92, 92, 90})
+		if len(o.chain) == 1 && r.Intn(2) == 0 {
+			target = 90
+		}
+		if wrapper {
+			target = Pick(r, []int{o.id, g.wproto.id, g.wproto.id, g.wproto.id, 90})
+		}
+		which := r.Intn(2)
+		var m meth
+		switch r.Intn(6) {
+		case 0:
+			m = meth{inherit: true} // delete
+			if target == 90 {
+				m = meth{present: false, setv: -1}
+			}
+		case 1:
+			m = meth{present: false, setv: -1} // = undefined
+		case 2:
+			m = meth{present: true, setv: -1, ret: retObj}
+		default:
+			m = meth{present: true, setv: -1, ret: retPrim, p: Pick(r, []prim{pNum(7), pNum(42), pStr("s"), pStr("9"), pBool(false), pNum(500), pUndef()})}
+		}
+		return setm(target, which, m)
+	}
+	n := 2 + r.Intn(4)
+	steps := []*expr{}
+	slot := 0
+	for i := 0; i < n; i++ {
+		u := use()
+		if i < n-1 && slot < 2 {
+			u = asg(slot, u)
+			slot++
+		}
+		steps = append(steps, u)
+		if i < n-1 {
+			steps = append(steps, mutate())
+			if r.Intn(3) == 0 {
+				steps = append(steps, mutate())
+			}
+		}
+	}
+	e := steps[len(steps)-1]
+	for i := len(steps) - 2; i >= 0; i-- {
+		e = bin(23, steps[i], e)
+	}
+	return vs, e
+}
+
+// instanceof (and typeof / strict equality) over a dense operand set relative to each constructor
+func (g *gen) instanceofCase() ([3]value, *expr) {
+	r := g.env.Rng
+	vs := g.vars(false, false)
+	mk := func(base string, cls int, chain []int64, fproto int64) value {
+		g.nextID++
+		o := &obj{id: g.nextID, cls: cls, base: base, chain: chain, fproto: fproto, vo: g.meth(false), ts: g.meth(false)}
+		g.objs = append(g.objs, o)
+		return value{o: o}
+	}
+	left := func() value {
+		switch r.Intn(12) {
+		case 0, 1:
+			return value{o: g.p91}
+		case 2, 3:
+			return value{o: g.p92}
+		case 4:
+			return mk("Object.create(o91)", 0, []int64{91, 90}, -1)
+		case 5:
+			return mk("Object.create(o92)", 0, []int64{92, 91, 90}, -1)
+		case 6:
+			return mk("{}", 0, []int64{90}, -1)
+		case 7:
+			return pv(g.prim())
+		case 8:
+			return mk("function(){}", 2, []int64{89, 90}, Pick(r, []int64{91, 92, 0}))
+		case 9:
+			return mk("new Date(0)", 1, []int64{84, 90}, -1)
+		default:
+			return value{o: Pick(r, builtins)}
+		}
+	}
+	right := func() value {
+		switch r.Intn(10) {
+		case 0, 1, 2, 3:
+			return mk("function(){}", 2, []int64{89, 90}, Pick(r, []int64{91, 92, 91, 92, 0}))
+		case 4, 5:
+			return mk("function(){}", 4, []int64{89, 90}, Pick(r, []int64{91, 92, 0}))
+		case 6, 7:
+			return value{o: Pick(r, builtins)}
+		case 8:
+			return left()
+		default:
+			return pv(g.prim())
+		}
+	}
+	l, rr := left(), right()
+	op := 20
+	if (l.o == nil || l.o.jsname == "") && (rr.o == nil || rr.o.jsname == "") {
+		if r.Intn(6) == 0 {
+			op = Pick(r, []int{13, 14, 11, 19})
+		}
+	} else if r.Intn(6) == 0 {
+		fresh := func(v value) bool { // an expression that creates a new object each time it is evaluated
+			return v.o != nil && (strings.HasPrefix(v.o.jsname, "(") || strings.HasPrefix(v.o.jsname, "["))
+		}
+		if !fresh(l) && !fresh(rr) {
+			op = Pick(r, []int{13, 14})
+		}
+	}
+	le, re := lit(l), lit(rr)
+	if l.o == nil || l.o.jsname == "" {
+		le = g.operand(l, &vs, 0)
+	}
+	if rr.o == nil || rr.o.jsname == "" {
+		re = g.operand(rr, &vs, 1)
+	}
+	e := bin(op, le, re)
+	if r.Intn(5) == 0 {
+		e = bin(Pick(r, []int{21, 22}), e, un(4, lit(l)))
+	}
+	return vs, e
+}
+
 func runC05(env *Env) {
 	env.Import = "Otto.C05.Corr"
 	env.Rule = "expressions over a boundary-dense value set (IEEE specials, 2^k neighbours for k in {31,32,53,63,64,...}, random bit patterns, numeric/malformed/hex/white-space strings, booleans, null, undefined, objects with scripted valueOf/toString that log, write variables, return objects or throw), injected as literals or through Otto.Set with Go int/uint/float representations: all unary and binary operators on single values and pairs, dedicated ToNumber(string), ToInt32-family, relational-string and operand-order streams, and random expression trees of depth 2-3 with assignments, compound assignments, ++/--, ?:, &&, ||, comma; non-trivial = distinct case that involves a non-small-integer double, a string, an object or more than one operator"
 	g := &gen{env: env, vm: otto.New()}
+	g.resetCase()
 	if o := RunJS(g.vm, prelude); o.Err != nil || o.Panic != nil {
 		panic(fmt.Sprint("prelude: ", o.Err, o.Panic))
 	}
 	r := env.Rng
 	g.pinned()
+	{ // class 8: (new F) instanceof F.bind(null)
+		inst := &obj{id: 1, base: "Object.create(o91)", chain: []int64{91, 90}, fproto: -1, vo: meth{present: true, setv: -1, ret: retPrim, p: pNum(1)}, ts: meth{inherit: true}}
+		bf := &obj{id: 2, cls: 4, base: "function(){}", chain: []int64{89, 90}, fproto: 91, vo: meth{inherit: true, setv: -1}, ts: meth{inherit: true, setv: -1}}
+		bf.vo, bf.ts = meth{present: true, setv: -1, ret: retPrim, p: pNum(2)}, meth{present: true, setv: -1, ret: retPrim, p: pStr("f")}
+		g.objs = append(g.objs, inst, bf)
+		g.runCase([3]value{pv(pUndef()), pv(pUndef()), pv(pUndef())}, bin(20, lit(value{o: inst}), lit(value{o: bf})), "pinned", true)
+	}
 	g.intRepr(9007199254740993, 0)
 	g.intRepr(60032052788413712, 1)
 	for env.Count() < env.N {
@@ -1138,6 +1469,16 @@ func runC05(env *Env) {
 				}
 				g.runCase(vs, bin(op, a, b), "core-binary", true)
 			}
+			continue
+		}
+		if r.Intn(9) == 0 {
+			vs, e := g.history()
+			g.runCase(vs, e, "history", true)
+			continue
+		}
+		if r.Intn(12) == 0 {
+			vs, e := g.instanceofCase()
+			g.runCase(vs, e, "instanceof", true)
 			continue
 		}
 		if r.Intn(10) == 0 { // equal or adjacent numeric values in different spellings under == != === !== < > <= >=
